@@ -2,10 +2,12 @@ package c18
 
 import (
 	"context"
+	"errors"
 	"fmt"
 	"sort"
 	"strings"
 
+	"github.com/lindb/lindb/constants"
 	"github.com/lindb/lindb/pkg/state"
 )
 
@@ -15,12 +17,93 @@ import (
 // the keys below the prefix in ascending byte order of the key (etcd range order), every Put
 // creates a new revision (and therefore a watch event, also when the value is unchanged),
 // Delete of a missing key is silent and creates no event.
+//
+// Faults: while the master processes an event (inMaster) the armed fault rules decide whether a
+// repository call fails. Calls of the external actors (storage nodes, brokers) never fail: the
+// property is about the master. A failing Put/Delete either does not reach the store, or - rule
+// "applied" - reaches it although the caller gets the error (etcd committed the write, the
+// answer timed out): both are legal outcomes of a request that ends with a time-out.
 type fakeRepo struct {
 	kv       map[string][]byte
 	rev      int64
 	seq      map[string]int64
 	onPut    func(key string, val []byte)
 	onDelete func(key string)
+
+	inMaster bool
+	rules    []*faultRule
+	fired    []firedFault // faults fired since the current event was handed to the master
+	// outcome of every Put of /storage/state since the current event was handed to the master
+	// (true = the value reached the store)
+	statePuts []bool
+}
+
+// the calls the master makes (coordinator/master/state_manager.go, storage_cluster.go)
+const (
+	fkPutState     = "put:/storage/state"
+	fkPutAssign    = "put:/database/assign"
+	fkGetAssign    = "get:/database/assign"
+	fkListNodes    = "list:/storage/live/nodes"
+	fkDeleteAssign = "delete:/database/assign"
+)
+
+// faultRule: of the calls of one kind made by the master from now on, `skip` succeed, then the
+// next `times` fail.
+type faultRule struct {
+	kind    string
+	skip    int
+	times   int
+	applied bool
+}
+
+type firedFault struct {
+	kind    string
+	key     string
+	applied bool
+}
+
+var errRepoFault = errors.New("verif: injected repository fault (etcdserver: request timed out)")
+
+func callKind(op, key string) string {
+	switch {
+	case op == "put" && key == constants.StorageStatePath:
+		return fkPutState
+	case op == "list" && key == constants.StorageLiveNodesPath:
+		return fkListNodes
+	case strings.HasPrefix(key, constants.ShardAssignmentPath+"/"):
+		return op + ":" + constants.ShardAssignmentPath
+	}
+	return op + ":" + key
+}
+
+// fault decides whether the call fails (and whether a failing write is applied nevertheless).
+func (r *fakeRepo) fault(op, key string) (fail, applied bool) {
+	if !r.inMaster || len(r.rules) == 0 {
+		return false, false
+	}
+	kind := callKind(op, key)
+	keep := r.rules[:0]
+	for _, ru := range r.rules {
+		if ru.kind == kind {
+			if ru.skip > 0 {
+				ru.skip--
+			} else {
+				if !fail {
+					applied = ru.applied
+				}
+				fail = true
+				ru.times--
+			}
+		}
+		if ru.times > 0 {
+			keep = append(keep, ru)
+		}
+	}
+	r.rules = keep
+	if fail {
+		r.fired = append(r.fired, firedFault{kind: kind, key: key, applied: applied})
+	}
+	return fail, applied
 }
 
 func newFakeRepo() *fakeRepo {
@@ -30,6 +113,9 @@ func newFakeRepo() *fakeRepo {
 var _ state.Repository = (*fakeRepo)(nil)
 
 func (r *fakeRepo) Get(_ context.Context, key string) ([]byte, error) {
+	if fail, _ := r.fault("get", key); fail {
+		return nil, errRepoFault
+	}
 	v, ok := r.kv[key]
 	if !ok {
 		return nil, state.ErrNotExist
@@ -52,6 +138,9 @@ func (r *fakeRepo) sortedKeys(prefix string) []string {
 }
 
 func (r *fakeRepo) List(_ context.Context, prefix string) ([]state.KeyValue, error) {
+	if fail, _ := r.fault("list", prefix); fail {
+		return nil, errRepoFault
+	}
 	var rs []state.KeyValue
 	for _, k := range r.sortedKeys(prefix) {
 		if len(r.kv[k]) > 0 {
@@ -69,10 +158,19 @@ func (r *fakeRepo) WalkEntry(_ context.Context, prefix string, fn func(key, valu
 }
 
 func (r *fakeRepo) Put(_ context.Context, key string, val []byte) error {
-	r.rev++
-	r.kv[key] = append([]byte(nil), val...)
-	if r.onPut != nil {
-		r.onPut(key, append([]byte(nil), val...))
+	fail, applied := r.fault("put", key)
+	if r.inMaster && key == constants.StorageStatePath {
+		r.statePuts = append(r.statePuts, !fail || applied)
+	}
+	if !fail || applied {
+		r.rev++
+		r.kv[key] = append([]byte(nil), val...)
+		if r.onPut != nil {
+			r.onPut(key, append([]byte(nil), val...))
+		}
+	}
+	if fail {
+		return errRepoFault
 	}
 	return nil
 }
@@ -87,13 +185,16 @@ func (r *fakeRepo) PutWithTX(ctx context.Context, key string, val []byte, check 
 }
 
 func (r *fakeRepo) Delete(_ context.Context, key string) error {
-	if _, ok := r.kv[key]; !ok {
-		return nil
+	fail, applied := r.fault("delete", key)
+	if _, ok := r.kv[key]; ok && (!fail || applied) {
+		r.rev++
+		delete(r.kv, key)
+		if r.onDelete != nil {
+			r.onDelete(key)
+		}
 	}
-	r.rev++
-	delete(r.kv, key)
-	if r.onDelete != nil {
-		r.onDelete(key)
+	if fail {
+		return errRepoFault
 	}
 	return nil
 }
